@@ -184,7 +184,20 @@ func plant(t *rapid.T, set *ymodel.Set) string {
 	case "missing-target":
 		tg := pick(func(schema.Target) bool { return true }, "near")
 		path := tg.Path
-		switch rapid.IntRange(0, 2).Draw(t, "where") {
+		switch rapid.IntRange(0, 3).Draw(t, "where") {
+		case 3:
+			// the path of a node below a choice, spelled without the choice and case steps
+			tc := pick(func(x schema.Target) bool {
+				_, ok := schema.WithoutChoiceSteps(trees, x)
+				return ok && can(x.Node.Kind) && x.Node.Kind != ymodel.KChoice && x.Node.Kind != ymodel.KCase
+			}, "below-a-choice")
+			if tc == nil {
+				path += "/" + from.Prefix + ":nosuch"
+				break
+			}
+			path, _ = schema.WithoutChoiceSteps(trees, *tc)
+			from.Augments = append(from.Augments, &ymodel.Augment{Path: path, Body: ymodel.Body{Nodes: []*ymodel.Node{leaf("zz1")}}})
+			return "target-path-skips-choice-and-case"
 		case 0:
 			path += "/" + from.Prefix + ":nosuch"
 		case 1:
